@@ -93,7 +93,10 @@ Inductive desc :=
 | DPrps (vals : list fval)                            (* values of struct elf_prpsinfo, incl. the hole *)
 | DFile (page_size : Z) (entries : list (Z * Z * Z)) (names : list (list Z)).
 
-Record note := { n_name : option (list Z);   (* None: namesz = 0; Some s: s NUL, namesz = |s| + 1 *)
+Record note := { n_name : option (list Z);   (* None: namesz = 0; Some s: s NUL [n_nextra], namesz = |s| + 1 + |n_nextra| *)
+                 n_nextra : list Z;          (* bytes after the terminating NUL that namesz still counts (the Go
+                                                toolchain writes "Go" NUL NUL with namesz 4): any bytes; the owner
+                                                is the string up to the FIRST NUL *)
                  n_npad : list Z;            (* padding after the name *)
                  n_type : Z;
                  n_desc : desc;
@@ -144,7 +147,7 @@ Definition desc_bytes (c : scfg) (d : desc) : list Z :=
 
 (* ---- the note encoder *)
 Definition name_bytes (n : note) : list Z :=
-  match n_name n with None => [] | Some s => cstring_encode s end.
+  match n_name n with None => [] | Some s => cstring_encode s ++ n_nextra n end.
 Definition namesz (n : note) : Z := zlen (name_bytes n).
 Definition descsz (c : scfg) (n : note) : Z := zlen (desc_bytes c (n_desc n)).
 
@@ -228,6 +231,7 @@ Definition wf_desc (c : scfg) (d : desc) : bool :=
 
 Definition wf_note (c : scfg) (n : note) : bool :=
   match n_name n with None => true | Some s => no_nul s && all_bytes s end &&
+  all_bytes (n_nextra n) &&
   all_bytes (n_npad n) && (zlen (n_npad n) =? pad4 (namesz n)) &&
   all_bytes (n_dpad n) && (zlen (n_dpad n) =? pad4 (descsz c n)) &&
   u32 (namesz n) && u32 (descsz c n) && u32 (n_type n) &&
